@@ -10,6 +10,7 @@ result must equal the result on a fresh object.
 import copy
 import itertools
 import os
+import re
 
 import numpy
 
@@ -46,6 +47,7 @@ CONFIGS = [
 RAWS = [
     ("int", 0), ("int", 1), ("int", 5), ("int", -3), ("float", 2.5), ("float", -0.0), ("float", 1e300), ("bool", True), ("bool", False),
     ("str", "5"), ("str", "2.5"), ("str", "-7"), ("str", "1e3"), ("str", " 7 "), ("str", "abc"), ("str", "true"), ("str", "FALSE"), ("str", "False"),
+    ("str", "18446744073709551615"), ("str", "9223372036854775807"), ("str", "-9007199254740993"), ("int", 2 ** 63 - 1), ("list", [("str", "20261003123456789"), ("int", 1)]),  # whole numbers a double cannot hold: the integer the text spells
     ("str", "0"), ("str", "1"), ("str", "2"), ("str", ""), ("str", "Float"), ("str", "Integer"), ("str", "float"),
     ("str", "inf"), ("str", "-Infinity"), ("str", "nan"), ("str", "1e999"), ("str", "1_0"), ("str", "0x10"), ("str", "1.5.2"),
     ("str", "nf_fin"), ("str", "fz_fin"), ("str", "nf_un"), ("str", "fz_un"), ("str", "ech_fin"), ("str", "ech_un"), ("str", "noout_un"), ("str", "nosuch"),
@@ -209,7 +211,9 @@ def _freeze(v):
         return ("type", v.__name__)
     if isinstance(v, float):
         return ("float", repr(v))
-    return (type(v).__name__, v if isinstance(v, (int, str, bool, type(None))) else repr(v))
+    if isinstance(v, str):
+        return ("str", re.sub(r" at 0x[0-9a-fA-F]+", " at 0x?", v))  # text made from an object's default repr carries its address
+    return (type(v).__name__, v if isinstance(v, (int, bool, type(None))) else repr(v))
 
 
 def _clean(param, v, p):
